@@ -598,6 +598,8 @@ public:
 
     edgeData.deallocate();
     edgeData.destroy();
+
+    this->outOfLineDeallocate();
   }
 
   void constructEdge(uint64_t e, uint32_t dst,
